@@ -1338,6 +1338,10 @@ func (w *Worker) invoke(s *State, f *Frame, fnv Value, args []Value, dst ssa.Val
 				s.frames = append(s.frames, nf)
 				return
 			}
+			if ghostInt(s, "flag/strict:"+pkgPath) != 0 {
+				// the harness models this package's functions one by one: an unmodelled one cannot be decided, never guessed
+				unsupported("%s is not modelled (package declared strict by the harness)", name)
+			}
 			s.job.stub("havoc:" + name)
 			w.setResult(f, dst, resultZeroS(s, fn.fn.Signature))
 			advance()
